@@ -82,9 +82,19 @@ def run_tasks(tasks, seed=0, nproc=None):
         return [_work(a) for a in args]
     ctx = mp.get_context("spawn")
     out = []
-    with cf.ProcessPoolExecutor(max_workers=min(nproc, len(args)), mp_context=ctx) as ex:
+    ex = cf.ProcessPoolExecutor(max_workers=min(nproc, len(args)), mp_context=ctx)
+    try:
         for r in ex.map(_work, args, chunksize=1):
             out.append(r)
+    finally:
+        # a worker that ran a real runtime which could not be stopped (a hang IS a finding) still owns
+        # non-daemon threads and would never exit on its own: do not wait for it
+        procs = list(getattr(ex, "_processes", {}).values())
+        ex.shutdown(wait=False, cancel_futures=True)
+        for p in procs:
+            p.join(timeout=3)
+            if p.is_alive():
+                p.kill()
     return out
 
 
